@@ -154,12 +154,9 @@ func Fold[A any](ctx context.Context, in <-chan A, m monoid.Monoid[A]) <-chan A 
 	done := make(chan A, 1)
 
 	go func() {
-		acc := m.Empty()
+		defer close(done)
 
-		defer func() {
-			done <- acc
-			close(done)
-		}()
+		acc := m.Empty()
 
 		var x A
 		for x = range in {
@@ -170,6 +167,8 @@ func Fold[A any](ctx context.Context, in <-chan A, m monoid.Monoid[A]) <-chan A 
 			default:
 			}
 		}
+
+		done <- acc
 	}()
 
 	return done
